@@ -64,6 +64,7 @@ type c18Conn struct {
 	rerr error
 	werr error
 	readerDone, writerDone bool
+	okWrites               []uint64 // logical start times of the writes that succeeded
 }
 
 func c18Run(tier string, seed int64, idx int) *core.Result {
@@ -120,6 +121,9 @@ func c18Run(tier string, seed int64, idx int) *core.Result {
 	}
 	var w Waiter
 	var pauseReaders atomic.Bool
+	var keepWriting atomic.Bool
+	keepWriting.Store(c.Family == "cancel-writer")
+	var cancelTick uint64
 	var cancelTarget *c18Conn
 	dm := goat.NewDemux(ctx, shared.B, func(r *goat.Rpc) string { return r.GetHeader().GetSource() }, func(rw goat.RpcReadWriter) {
 		// the key is learnt from the first envelope read
@@ -162,12 +166,19 @@ func c18Run(tier string, seed int64, idx int) *core.Result {
 			for i := 0; i < nw; i++ {
 				e := &wire.Rpc{Id: uint64(n)<<32 | uint64(i), Header: &goatorepo.RequestHeader{Method: "/w", Source: fmt.Sprintf("conn%d", n), Destination: "peer",
 					Headers: []*goatorepo.KeyValue{{Key: "k", Value: fmt.Sprint(i)}}}, Body: &goatorepo.Body{Data: []byte{byte(i), 0xff, 0}}}
+				startTick := wire.Tick()
 				if err := rw.Write(ctx, e); err != nil {
 					cn.mu.Lock()
 					cn.werr = err
 					cn.mu.Unlock()
-					break
+					if n > 1 || !keepWriting.Load() {
+						break
+					}
+					continue // the hammering writer keeps trying: every attempt after the Cancel must fail
 				}
+				cn.mu.Lock()
+				cn.okWrites = append(cn.okWrites, startTick)
+				cn.mu.Unlock()
 				mu.Lock()
 				wroteIDs[e.Id] = proto.Clone(e).(*wire.Rpc)
 				mu.Unlock()
@@ -238,6 +249,7 @@ func c18Run(tier string, seed int64, idx int) *core.Result {
 				}
 				mu.Unlock()
 				dm.Cancel(victim)
+				cancelTick = wire.Tick()
 				res.Stat("cancels", 1)
 			case "cancel-handoff":
 				// park Run between lookup and hand-off of the next victim envelope, cancel, release
@@ -380,12 +392,25 @@ func c18Run(tier string, seed int64, idx int) *core.Result {
 			if c.Family == "cancel-writer" && !cn.writerDone {
 				res.Violate("write-on-cancelled-connection-blocks", "after Cancel(%s) a Write on its logical connection has not returned at a final state", victim)
 			}
+			if cancelTick != 0 {
+				late := 0
+				for _, t := range cn.okWrites {
+					if t > cancelTick {
+						late++
+					}
+				}
+				if late > 0 {
+					res.Violate("write-on-cancelled-connection-succeeds", "%d Write calls started after Cancel(%s) had returned succeeded on its logical connection", late, victim)
+				}
+				res.Stat("writes_after_cancel_checked", 1)
+			}
 			cn.mu.Unlock()
 			res.Stat("cancelled_connections_checked", 1)
 		}
 		mu.Unlock()
 	}
 	// shutdown
+	keepWriting.Store(false)
 	if !stopped {
 		dm.Stop()
 	}
